@@ -119,6 +119,20 @@ def _locate(data, p):
     parts = V._flatten_concat(d.t)
     if len(parts) < 2:
         return
+    # prefixes x1 ++ ... ++ xj (the located lemma with x empty): a NUMBER that ends inside a prefix is that prefix's
+    # NUMBER - this is the frame rule "appending does not change what was decoded before"
+    plen = 0
+    for j in range(1, len(parts)):
+        plen = plen + (1 if z3.is_app_of(parts[j - 1], z3.Z3_OP_SEQ_UNIT) else L(V.SSeq(parts[j - 1], "byte", "bytes")))
+        if j == 1:
+            continue  # a single part: covered by the per-part instance below
+        PF = V.SSeq(z3.Concat(*parts[:j]), "byte", "bytes")
+        nl_f, nv_f = _opq("NUMBER_len", PF, p), _opq("NUMBER_value", PF, p)
+        g1 = Implies(And(p >= 0, p < plen), nl_d == nl_f)
+        g2 = Implies(And(p >= 0, p + nl_d <= plen), nv_d == nv_f)
+        for f in (g1, g2):
+            if is_sym(f):
+                eng.pc.append(f.t)
     off = 0
     for part in parts:
         P = V.SSeq(part, "byte", "bytes")
